@@ -6,11 +6,13 @@ use std::panic;
 
 mod bitmap;
 mod grid;
+mod seqapi;
 
 fn run_case(fam: &str, args: &[i128]) -> Vec<i128> {
     match fam {
         "bitmap" => bitmap::run(args),
         "grid" => grid::run(args),
+        "seqapi" => seqapi::run(args),
         _ => panic!("unknown family {fam}"),
     }
 }
